@@ -440,7 +440,35 @@ def r3_skip_count(L, repo, hl):
     P = params(pm)[1]
     got = sorted((tuple(c for c in conds), canon(r) if r is not None else "None") for conds, r in fw.returns)
     want = sorted([((("self._seek2msg(%s)" % P, False),), "None"), ((("self._seek2msg(%s)" % P, True),), "self._parse_msg()")])
-    L.require("C15.R3", F, "DATADumpFile.parse_msg", "random access = skip idx records, then read one", want, got)
+    # decided by folding parse_msg(i) for index witnesses with the skip and the record reader as recording oracles
+    import consteval as _ce
+    Opaque = _ce.Opaque
+    folded = True
+    for idx_ in (0, 1, 2, 7, 300):
+        for found in (True, False):
+            seeks, reads = [], []
+            e_ = _ce.Ev(repo, ci.mod, env={P: idx_}, self_cls=ci)
+            e_.ignore_calls = ("log.", "logging.")
+            e_.hooks = {"self._seek2msg": lambda a, seeks=seeks, found=found: (seeks.append(tuple(a)), found)[1],
+                        "self._parse_msg": lambda a, reads=reads: (reads.append(tuple(a)), Opaque("MSG"))[1]}
+            try:
+                r_ = e_.run_block(pm.body)
+                res = (r_[1] if isinstance(r_, tuple) else None)
+            except _ce.Raised as ex:
+                res = "raises %s" % ex.cls
+            except _ce.Unknown:
+                folded = False
+                break
+            L.require("C15.R3", F, "DATADumpFile.parse_msg", "parse_msg(%d), %s: skip exactly %d records once, then read one record (or report None)" % (
+                idx_, "record present" if found else "capture too short", idx_),
+                ([(idx_,)], [()] if found else [], Opaque("MSG") if found else None), (seeks, reads, res))
+        if not folded:
+            break
+    if folded:
+        L.structural("C15.R3 shape of parse_msg (seek, then read)", L.require, "C15.R3", F, "DATADumpFile.parse_msg",
+                     "random access = skip idx records, then read one", want, got)
+    else:
+        L.require("C15.R3", F, "DATADumpFile.parse_msg", "random access = skip idx records, then read one", want, got)
     # parse_all
     ci, pa = repo.need_method("data_dump", "DATADumpFile", "parse_all")
     fn = "DATADumpFile.parse_all"
